@@ -137,6 +137,12 @@ type Case struct {
 	Engine         string         `json:"engine"` // v1 | v2
 	PersistDelayMs int            `json:"persist_delay_ms"`
 	PersistBundle  int            `json:"persist_bundle"`
+	// FreeSched: the boundary scheduler is switched off, every plugin answers at once; the
+	// interleaving is left to the Go scheduler (reaches windows inside the engine that lie
+	// between two plugin boundaries, at the price of a replay that is not schedule-exact).
+	FreeSched bool `json:"free_sched,omitempty"`
+	// Hostile names the one hostile plugin reply shape scripted in this case ("" = none).
+	Hostile string `json:"hostile,omitempty"`
 	// HoldStartInRecovery: a scripted Start is not issued while the pipeline reports Recovering
 	// (used to keep the search going behind a known finding of that shape).
 	HoldStartInRecovery bool `json:"hold_start_in_recovery,omitempty"`
